@@ -1121,6 +1121,17 @@ class Frame(object):
             m.store_bits(d.loc.region, d.loc.off, byte * ln)
             return d
         cq = n.get("cqual") or ""
+        if cq in ("std::min", "std::max") and len(argn) == 2:
+            a_, b_ = self.rv(argn[0]), self.rv(argn[1])
+            if isinstance(a_, Loc):
+                a_ = m.load(a_)
+            if isinstance(b_, Loc):
+                b_ = m.load(b_)
+            av_, bv_ = (a_.value() if isinstance(a_, BV) else None), (b_.value() if isinstance(b_, BV) else None)
+            if av_ is None or bv_ is None:
+                raise Unsupported("%s of values that depend on the object or the argument" % cq)
+            r_ = min(av_, bv_) if cq == "std::min" else max(av_, bv_)
+            return BV.const(r_, max(a_.w(), b_.w()))
         if cq == "std::distance" and len(argn) == 2:
             a_, b_ = self.rv(argn[0]), self.rv(argn[1])
             if isinstance(a_, Ptr) and isinstance(b_, Ptr) and a_.loc is not None and b_.loc is not None and a_.loc.region == b_.loc.region:
